@@ -26,6 +26,12 @@ CLAIMS = {
         "Decides: exactly one guarded Read::read call site whose only cycle is the Interrupted retry, refill reachable only when the buffer falls short, no bulk request in tokenizers; and on every path of every streaming API function the last look-ahead answer before a success return is the line terminator or end of input (no byte beyond the consumed text was asked for). The number of reads per item for a concrete source is not decided.",
         "DESIGN.md §4 C09",
     ),
+    "C10": (
+        "other",
+        "dominance rules over MIR (buffer reset discipline on the def-level call graph; guard extraction on the reader's compaction code)",
+        "The heap bound itself is a runtime quantity and is not decided. Decided are necessary structural conditions: every growth of a buffer that outlives the call, in code reachable from a streaming parser entry point, is dominated by a clear() of the same buffer; compaction in request_more is decided on live operands, moves the window to offset 0 and the buffer only grows when window + chunk does not fit. (Allocation sized by declared counts is C05-R5.)",
+        "DESIGN.md §4 C10",
+    ),
     "C15": (
         "proof",
         "exhaustive abstract interpretation of MIR over the finite variant domain, compared with a specification table",
